@@ -5,10 +5,13 @@ import NdnModel.Lvs.Compile
   `Proto.handle`.
 
   request ::= `compile <schema>`                 answers `cerr <Error>` | `ok <model> <symbols>`
-            | `csanity <schema>`                 answers `cerr <Error>` | `ok <model> <symbols> <ok|Error>`
-                                                 (the last field: the loader's verdict on the compiled model)
-            | `cfull <schema> <env> <names>`     answers `cerr <Error>` | `ok <model> <symbols> <Error>`
-                                                 | `ok <model> <symbols> accepted <mmatch answer>`
+            | `keyinj <schema>`                  answers `cerr <Error>` | `ok 1` | `ok 0`: is the merge key of
+                                                 `pattern_movement` injective on the chains of the schema (`keyInjB`)
+            | `csanity <schema>`                 answers `cerr <Error>` | `ok <model> <symbols> <k> <ok|Error>`
+                                                 (the last field: the loader's verdict on the compiled model;
+                                                 `<k>` = `1` iff the merge key is injective on the chains, `keyInjB`)
+            | `cfull <schema> <env> <names>`     answers `cerr <Error>` | `ok <model> <symbols> <k> <Error>`
+                                                 | `ok <model> <symbols> <k> accepted <mmatch answer>`
   schema  ::= `.` | rule (`|` rule)*
   rule    ::= `<id>;<comps>;<cons>;<sign>`       comps ::= comp (`,` comp)*     sign ::= `.` | id (`,` id)*
   comp    ::= `L<hex>` | `P<ident>` | `R<ruleId>`
@@ -100,6 +103,12 @@ def showNode (n : Node) : String :=
 def showModel (m : Model) : String :=
   "!".intercalate [sOptNat m.version, toString m.startId, toString m.namedCnt, sList "|" (m.nodes.map showNode)]
 
+/-- `1` iff the merge key is injective on the chains of the schema (the hypothesis of `tree_eq_chains`) -/
+def keyFlag (S : Schema) : String :=
+  match chainsOf S with
+  | .ok (chains, _) => if keyInjB chains then "1" else "0"
+  | .error _ => "0"
+
 def handle (args : List String) : String :=
   match args with
   | ["compile", ss] =>
@@ -109,6 +118,13 @@ def handle (args : List String) : String :=
       match compile S with
       | .error e => "cerr " ++ e.name
       | .ok (m, syms) => "ok " ++ showModel m ++ " " ++ sList "," syms
+  | ["keyinj", ss] =>
+    match parseSchema ss with
+    | none => "bad-op"
+    | some S =>
+      match chainsOf S with
+      | .error e => "cerr " ++ e.name
+      | .ok (chains, _) => if keyInjB chains then "ok 1" else "ok 0"
   | ["csanity", ss] =>
     match parseSchema ss with
     | none => "bad-op"
@@ -116,7 +132,7 @@ def handle (args : List String) : String :=
       match compile S with
       | .error e => "cerr " ++ e.name
       | .ok (m, syms) =>
-        "ok " ++ showModel m ++ " " ++ sList "," syms ++ " " ++
+        "ok " ++ showModel m ++ " " ++ sList "," syms ++ " " ++ keyFlag S ++ " " ++
           (match sanityCheck m with | .ok _ => "ok" | .error e => e.name)
   | ["cfull", ss, es, nss] =>
     match parseSchema ss, parseEnv es, (nss.splitOn "/").mapM fromHexList with
@@ -124,7 +140,7 @@ def handle (args : List String) : String :=
       match compile S with
       | .error e => "cerr " ++ e.name
       | .ok (m, syms) =>
-        "ok " ++ showModel m ++ " " ++ sList "," syms ++ " " ++
+        "ok " ++ showModel m ++ " " ++ sList "," syms ++ " " ++ keyFlag S ++ " " ++
           (match sanityCheck m with
             | .error e => e.name
             | .ok _ => "accepted " ++ "/".intercalate (names.map (matchOne m env false)))
